@@ -89,6 +89,84 @@ def current(specs):
         big = len(ints) + len(floats) > 400      # tables: keep the hash only
         out[spec] = {'hash': hashlib.sha256(text.encode()).hexdigest()[:24],
                      'ints': [] if big else sorted(ints), 'floats': [] if big else sorted(floats)}
+        if isinstance(node, ast.FunctionDef):
+            out[spec]['stmts'] = sorted(h for (h, _a, _b, _k) in _statements(node))
+    return out
+
+
+_COMPOUND = (ast.If, ast.For, ast.While, ast.With, ast.Try, ast.FunctionDef, ast.ClassDef)
+
+
+def _statements(fn):
+    """(hash, first line, last line, kind) of every statement of a function: simple statements whole, compound
+    statements by their header only (their bodies are statements of their own)."""
+    out = []
+
+    def header(n):
+        if isinstance(n, ast.If):
+            return 'if ' + ast.dump(n.test)
+        if isinstance(n, ast.While):
+            return 'while ' + ast.dump(n.test)
+        if isinstance(n, ast.For):
+            return 'for ' + ast.dump(n.target) + ' in ' + ast.dump(n.iter)
+        if isinstance(n, ast.With):
+            return 'with ' + ' '.join(ast.dump(i) for i in n.items)
+        if isinstance(n, ast.Try):
+            return 'try'
+        return type(n).__name__ + ' ' + getattr(n, 'name', '')
+
+    def walk(body):
+        for n in body:
+            if not hasattr(n, 'lineno'):      # the Pass that replaces a stripped docstring
+                continue
+            if isinstance(n, _COMPOUND):
+                first = n.lineno
+                inner = getattr(n, 'body', None) or []
+                last = (inner[0].lineno - 1) if inner and inner[0].lineno > first else first
+                kind = 'header'
+                if isinstance(n, ast.If) and all(isinstance(b, ast.Raise) for b in n.body) and not n.orelse:
+                    kind = 'guard'         # `if c: raise ...`: evaluated whenever control reaches it
+                if isinstance(n, (ast.FunctionDef, ast.ClassDef)):
+                    kind = 'def'
+                out.append((hashlib.sha256(header(n).encode()).hexdigest()[:16], first, max(first, last), kind))
+                for field in ('body', 'orelse', 'finalbody'):
+                    walk(getattr(n, field, None) or [])
+                for h in getattr(n, 'handlers', None) or []:
+                    walk(h.body)
+            else:
+                kind = 'raise' if isinstance(n, ast.Raise) else ('inert' if isinstance(n, (ast.Pass, ast.Global, ast.Nonlocal, ast.Import, ast.ImportFrom)) else 'simple')
+                out.append((hashlib.sha256(ast.dump(n).encode()).hexdigest()[:16], n.lineno, getattr(n, 'end_lineno', n.lineno), kind))
+    walk(fn.body)
+    return out
+
+
+def changed_statements(changed_specs):
+    """Statements of the CURRENT source of the given (changed or new) functions that the golden source of the same
+    file does not contain anywhere (a statement moved verbatim into a helper is not new).  Only statements whose
+    execution means something are returned: no `raise`, no `pass`/imports, no nested `def` lines.
+    -> [{'file': 'pymeeus/X.py', 'fn': qual, 'first': l0, 'last': l1, 'kind': ...}]"""
+    gold = json.load(open(GOLDEN)) if os.path.exists(GOLDEN) else {}
+    pool = {}
+    for spec, g in gold.items():
+        f = spec.split(':')[0]
+        d = pool.setdefault(f, {})
+        for h in g.get('stmts', []):
+            d[h] = d.get(h, 0) + 1
+    out = []
+    for spec in changed_specs:
+        path, qual = spec.split(':')
+        tree = _module(path)
+        node = _find(tree, qual) if tree is not None else None
+        if not isinstance(node, ast.FunctionDef):
+            continue
+        avail = dict(pool.get(path, {}))
+        for (h, a, b, kind) in _statements(node):
+            if avail.get(h, 0) > 0:
+                avail[h] -= 1
+                continue
+            if kind in ('raise', 'inert', 'def'):
+                continue
+            out.append({'file': path, 'fn': qual, 'first': a, 'last': b, 'kind': kind})
     return out
 
 
